@@ -245,6 +245,24 @@ def check_case(case, ctx):
                     else:
                         compare_table(ctx, {**case, "ds_after_mutation": ds_now}, M6, table_now, ids_now, exact,
                                       f"{how}, after an in-place removal ({mut}) on a Dataset whose table had been built")
+    # two different datasets in a row whose position matrices have the same content and different shapes
+    if gen.digest(ds)[0] in "0123":
+        import random
+        A, Bt = gen.reshape_twins(random.Random(gen.digest(ds)))
+        for which, twin in (("first", A), ("second", Bt)):
+            d_t = libx.mk_dataset(twin)
+            el_t = ref.universe(twin)
+            ids_t = {e.value: i for e, i in d_t.mapping_elem_id.items()}
+            st7, M7 = call(PBA.pairwise_cost_matrix, d_t.get_positions(), scheme)
+            ctx.count("reshape_twin_tables")
+            if st7 == "exc":
+                ctx.violation("C02/table-raises", f"pairwise_cost_matrix raised on the {which} of two reshape twins: "
+                              + exc_desc(M7), {**case, "twins": [A, Bt]})
+                break
+            if not compare_table(ctx, {**case, "ds": twin, "twins": [A, Bt]}, M7, ref.cost_table(twin, sch, el_t), ids_t, exact,
+                                 f"{which} of two datasets in a row whose position matrices have the same content and "
+                                 "different shapes"):
+                break
     # reach bookkeeping: which statuses occur with non-zero penalties, in which id order
     B, T = sch
     seen = set()
@@ -281,6 +299,9 @@ def reach(counters, tier, info):
         v = counters.get("tables_after_in_place_mutation:changed:" + mut, 0)
         out.append({"name": f"... where the removal ({mut}) changed the rankings", "observed": v, "required": 25,
                     "ok": v >= 25})
+    v = counters.get("reshape_twin_tables", 0)
+    out.append({"name": "tables of reshape twins (same matrix content, other shape) built in a row", "observed": v,
+                "required": 300, "ok": v >= 300})
     v = counters.get("large_tables_judged", 0)
     out.append({"name": "tables over 63-1025 elements judged entirely (vectorised reference)", "observed": v, "required": 40,
                 "ok": v >= 40})
